@@ -127,7 +127,7 @@ def run_conn(ctx, prop):
         kindconn = [e for e in evs if e["ev"] == "env_conn"][0]
         ctx.violation("trace-" + kind, "%s violated on a recorded execution of a real connection (scenario kind %s, protocol %s) at %s" % (
             kind, kindconn.get("kind"), kindconn.get("proto"), json.dumps(ev)),
-            dict(trace=[e for e in evs if e["ev"] != "env_stuck"][-400:], event=ev))
+            dict(trace=[{k: x for k, x in e.items() if k not in ("dump", "bytes")} for e in evs], event=ev))
     if other:
         ctx.notes.append("violations of invariants owned by the sibling property were seen: %s" % sorted({v[1] for v in other}))
     ctx.log("monitor: %s; violations mine=%d other=%d" % (stats, len(mine), len(other)))
